@@ -197,6 +197,36 @@ def check(res):
         diff = sorted(k for k in set(untouched) | set(pristine) if untouched.get(k) != pristine.get(k))
         res.violation({"kind": "spec-violation", "what": "the generator created or modified files other than its <source>_<type>_validator.go outputs", "files": diff[:6]})
         return
+    # --- edited sources over a tree that still holds the previous output: the file of a struct is a function of its
+    # declaration alone, whatever an earlier run left in it (longer or shorter previous content)
+    s_, i_ = basic("string"), basic("int")
+    v_long = scenario("edit", [struct("User", [fld("Name", ["//govalid:required", "//govalid:maxlength=32", "//govalid:minlength=2"], s_),
+                                                fld("Email", ["//govalid:required", "//govalid:email"], s_), fld("Age", ["//govalid:gte=18", "//govalid:lt=150"], i_)], [])])
+    v_short = scenario("edit", [struct("User", [fld("Name", ["//govalid:required"], s_), fld("Email", [], s_), fld("Age", [], i_)], [])])
+    fresh = {}
+    for tag, sc in (("long", v_long), ("short", v_short)):
+        dd = write_pkgs(os.path.join(base, "fresh_" + tag), [sc], gh)
+        gen(gv, dd, ["./..."])
+        fresh[tag] = outputs(dd)
+        fresh[tag + "_src"] = {k: v for k, v in snapshot(dd).items() if k not in fresh[tag]}
+        shutil.rmtree(os.path.join(base, "fresh_" + tag), ignore_errors=True)
+    for first_tag, second_tag in (("long", "short"), ("short", "long")):
+        dd = write_pkgs(os.path.join(base, "edit_" + first_tag), [v_long if first_tag == "long" else v_short], gh)
+        gen(gv, dd, ["./..."])
+        for rel, content in fresh[second_tag + "_src"].items():
+            open(os.path.join(dd, rel), "wb").write(content)
+        rc, log = gen(gv, dd, ["./..."])
+        got = outputs(dd)
+        evals += 1
+        if got != fresh[second_tag]:
+            diff = sorted(k for k in set(got) | set(fresh[second_tag]) if got.get(k) != fresh[second_tag].get(k))
+            res.violation({"kind": "spec-violation", "files": diff[:4], "generator_exit": rc,
+                           "what": "after the rules of a struct were edited (%s -> %s) the regenerated file differs from the file generated for the same "
+                                   "declaration in a fresh tree: the output depends on what an earlier run left behind" % (first_tag, second_tag),
+                           "got_len": {k: len(v) for k, v in got.items()}, "want_len": {k: len(v) for k, v in fresh[second_tag].items()},
+                           "first_version": genprop_source(v_long if first_tag == "long" else v_short), "second_version": genprop_source(v_long if second_tag == "long" else v_short)})
+            return
+        shutil.rmtree(os.path.join(base, "edit_" + first_tag), ignore_errors=True)
     # --- declaration and file order inside a package must not matter for a struct's own file
     for r in range(3 if quick else 12):
         sc = dict(pkgs[r % len(pkgs)])
@@ -238,6 +268,10 @@ def check(res):
         "race_runs": 2 if quick else 10, "races": races,
         "samples": [{"packages": [s["id"] for s in pkgs], "gomaxprocs": [1, 2, 16], "repetitions": reps}],
     })
+
+
+def genprop_source(sc):
+    return {"struct": sc["structs"][0]["name"], "fields": [(f["names"], f["doc"]) for f in sc["structs"][0]["fields"]]}
 
 
 def replay(payload):
